@@ -1,7 +1,7 @@
 """Pipeline P5 — the grammar-file formatter (C17 content preservation, C18 idempotence / check mode).
 
 Domain (what is tried):
-  A  TLC enumerates spec/FormatModel.tla's layout domain: 13 small valid grammars (skeletons) in every
+  A  TLC enumerates spec/FormatModel.tla's layout domain: 13 small valid grammars + 2 long ones (skeletons) in every
      layout with at most K deviating gaps (white space classes x three comment kinds) - exhaustive
      for its bounds; the texts are rendered by TLC and re-rendered here from the structured layout.
   B  every repository / corpus grammar file as is and in N seeded random legal layouts (re-layout of
@@ -203,7 +203,7 @@ GEN_BOUNDS = {
     "quick": {"KFULL": 1, "KMED": 0, "KSMALL": 2},
     "thorough": {"KFULL": 1, "KMED": 2, "KSMALL": 2},
 }
-NSKEL = 13
+NSKEL = 15        # 13 small skeletons + 2 long ones (line wrapping; one deviating gap only)
 
 
 def render_layout(sktab, k, dev):
@@ -227,7 +227,7 @@ def render_layout(sktab, k, dev):
 
 def family_a(tier):
     b = GEN_BOUNDS[tier]
-    groups = [(1, 5), (6, 10), (11, 12), (13, 13)] if tier == "quick" else [(1, 3), (4, 5), (6, 7), (8, 9), (10, 11), (12, 12), (13, 13)]
+    groups = [(1, 5), (6, 10), (11, 12), (13, 15)] if tier == "quick" else [(1, 3), (4, 5), (6, 7), (8, 9), (10, 11), (12, 12), (13, 15)]
 
     def run(job):
         lo, hi = job
@@ -730,6 +730,7 @@ def collect(prop, tier):
         r["x"] = t["text"]
         items.append((t, r))
     stats["python_lexer_crosscheck"] = {"valid_texts": lex_checked, "mismatches": lex_mismatch}
+    log("legality / cross-checks done at +%.1fs" % (time.time() - t0))
     if stats["A_not_valid"]:
         raise ToolError("the layout model produced %d syntactically invalid texts (generator defect)" % stats["A_not_valid"])
     if lex_mismatch:
@@ -775,8 +776,10 @@ def judge(prop, tier):
 
 ASSUMPTIONS = [
     "dprint-core's layout engine is third-party code: it is observed through lelwel's formatter, not modelled",
-    "the probe binary is a dev-profile build (debug assertions on), like `cargo build` of llw; dprint-core's "
-    "debug self-checks therefore panic where a release build would print",
+    "the probe is the harness's dev-profile build, in which harness/Cargo.toml switches dprint-core's debug assertions "
+    "off (= what a release build of llw does); with them on (plain `cargo build` of llw) dprint-core's self-checks "
+    "panic on a tab or a line break inside a comment / string token and on an unclosed rule or bracket - such runs of "
+    "the debug llw are excluded from the command line clause and counted",
     "white space = the lexer's class [ \\t\\r\\n\\f]; line/doc comment tokens are compared without their terminating newline",
     "texts longer than %d characters (or with characters outside the BMP / control characters) are given to TLC "
     "as SHA-256 digests: equality of digests stands for equality of strings" % LONG,
@@ -850,7 +853,7 @@ def judge_c17(tier):
         "sema_panics_unjudgeable": len(sema_panics),
         "binding_selftest": {"corrupted_records": len(st), "rejected": len(got), "clauses": sorted(set(want.values()))},
         "exhaustive": False,
-        "exhaustive_part": "family A only: every layout of the 13 skeletons of FormatModel.tla within the bounds "
+        "exhaustive_part": "family A only: every layout of the 15 skeletons of FormatModel.tla within the bounds "
                            "%s (max deviating gaps per option set) plus the uniform layouts; families B and C are seeded samples" % a_stats["bounds"],
         "bounds": dict(a_stats["bounds"], skeletons=NSKEL, relayouts_per_file=8 if tier == "quick" else 60),
         "tlc_judge_wall_s": round(wall, 1), "tlc_generator_wall_s": round(a_stats["wall"], 1),
@@ -871,6 +874,7 @@ def cli_clause(sample, tier):
     def one(arg):
         k, (t, r) = arg
         p = os.path.join(d, "g%d.llw" % k)
+        os.makedirs(d, exist_ok=True)
         with open(p, "w", encoding="utf-8", newline="") as fh:
             fh.write(t["text"])
         dbg = [False]
@@ -916,6 +920,7 @@ def judge_c18(tier):
         rng.shuffle(pool)
         sample += pool[:max(1, int(n_cli * share))] if pool else []
     obs = cli_clause(sample, tier)
+    log("CLI clause observed on %d files" % len(sample))
     cli_recs = []
     cli_debug_panics = 0
     if obs is not None:
@@ -979,6 +984,7 @@ def judge_c18(tier):
         found.append((key, desc, {"property": "C18", "key": key, "name": t["name"], "text": t["text"], "f1": r["f1"],
                                   "f2": r["f2"], "why": v["why"], "cli": o, "how": "./check C18 --replay <this file>"}))
     classes = register(rep, found)
+    log("classification done")
     nontrivial = 0
     for t, r in ok_items:
         if any(k in COMMENTS for k, _ in r["toks_x"]) or linebreak_inside_decl(t["text"]):
@@ -1003,7 +1009,7 @@ def judge_c18(tier):
                        if obs is not None else "skipped (VERIF_PROBE set without VERIF_LLW)"),
         "binding_selftest": {"corrupted_records": len(st), "rejected": len(got), "clauses": sorted(set(want.values()))},
         "exhaustive": False,
-        "exhaustive_part": "family A only: every layout of the 13 skeletons of FormatModel.tla within the bounds "
+        "exhaustive_part": "family A only: every layout of the 15 skeletons of FormatModel.tla within the bounds "
                            "%s (max deviating gaps per option set) plus the uniform layouts; family B and the CLI sample are seeded samples" % a_stats["bounds"],
         "bounds": dict(a_stats["bounds"], skeletons=NSKEL, relayouts_per_file=8 if tier == "quick" else 60, cli_files=n_cli),
         "tlc_judge_wall_s": round(wall, 1), "tlc_generator_wall_s": round(a_stats["wall"], 1),
